@@ -53,8 +53,8 @@ def expected_objects(prog, outs):
                 continue
             tkey = s.get('type') or op
             nm = s['name']['v']
-            e = ExpObj(ci, s['lf'], tkey, s.get('set_name'), nm, None)
-            k = (tkey, s.get('set_name'), nm)
+            e = ExpObj(ci, s['lf'], tkey, s.get('set_name') or None, nm, None)
+            k = (tkey, s.get('set_name') or None, nm)
             e.copy = per_set.get(k, 0)
             per_set[k] = e.copy + 1
             org = s.get('origin')
